@@ -36,7 +36,9 @@ prop("C11", "exploration",
      [dict(pkg="queuex", test="TestC11Queue", world="W0", quick=16000, thorough=800000,
            required_classes=["multi-chunk-file", "resumed-multi-range"]),
       dict(pkg="payloadx", test="TestC11Pack", world="W0", quick=16000, thorough=800000,
-           required_classes=["file-in-several-parts", "split", "several-files-in-one-payload"])],
+           required_classes=["file-in-several-parts", "split", "several-files-in-one-payload"]),
+      dict(pkg="stagex", test="TestC11Sim", world="W1", quick=600, thorough=20000, per_proc=60, shrink_runs=150,
+           required_classes=["multi-part-file", "multi-thread"])],
      ["harness implementations of sts.Recovered and sts.Binnable (the sender's own are unexported; exercised end to end in the simulation checks)",
       "sizes are tens of bytes; arithmetic near 2^53 (float64 math.Min in Bin.Add) is not explored"])
 
@@ -169,6 +171,47 @@ prop("C17", "exploration",
       "for a symlink the statement does not say whose age counts; without link following the link's own time is used, with link following the target's",
       "histories (rewrite, append, touch, replace during scans and transmission) and 'each version once' are not covered by this unit"])
 
+SIM_ASSUME = [
+    "simulation world W1: real client.Broker, store.Local, cache.JSON, queue.Tagged, payload.Bin (real encoder and decoder on every payload), "
+    "log.FileIO (both sides) and stage.Stage in one process on a fake clock; the harness is the transport (it mirrors the data, data-recovery, "
+    "validate and partials routes call for call), chooses which pending request is served next, injects faults, restarts either side, mutates the "
+    "source directory and moves time",
+    "http/server.go and http/client.go are not executed in this world",
+    "the Go scheduler's choice among runnable sender goroutines between two requests is not owned by the harness",
+    "a rewrite of a source file always changes its modification time (a change keeping size and time is undetectable by design)",
+]
+
+prop("C02", "exploration",
+     "W1: 1-4 source files over 1-3 groups, delete on/off with optional delete-delay, poll delay/interval/attempts/batch drawn small, 1-4 threads; up to 70 steps "
+     "of: serve a drawn pending request with a drawn fault (refuse, lost answer, partial content, cut, byte flip; polls refused / answer lost), wait, add / "
+     "rewrite (same or new size) / touch a source file, restart the receiver, crash and restart the sender (optionally mutating while it is down); at "
+     "every FileSource.Remove and FileCache.Done the md5 of the source file at that instant must be held validated by the receiver (.wait, on its way "
+     "into the final directory, or delivered); at the end no source file is missing without such a copy; non-trivial = at least one release AND (a "
+     "rewrite, a sender crash or a refused/lost request)",
+     [dict(pkg="stagex", test="TestC02Sim", world="W1", quick=1200, thorough=40000, per_proc=60, shrink_runs=150,
+           required_classes=["file-rewritten", "sender-crash", "receiver-restart", "xfault-2"])],
+     SIM_ASSUME)
+
+prop("C03", "exploration",
+     "W1: arbitrary finite prefix (up to 60 steps) of transport faults of all kinds, poll faults, restarts of both sides and source mutations, then a "
+     "quiet suffix: no faults, no changes; bound B = 4*(scan-delay + poll-delay + attempts*poll-interval) + 10 min of sender activity, then up to 80 "
+     "simulated minutes of receiver-only time (10 s predecessor retries, 30 min cleaner) once the sender is idle; within it every file's last version "
+     "must be delivered and its cache entry done; files released on a wrong confirmation (known C02 findings) are left out; non-trivial = >= 2 "
+     "faults of >= 2 kinds",
+     [dict(pkg="stagex", test="TestC03Sim", world="W1", quick=1000, thorough=30000, per_proc=50, shrink_runs=150,
+           required_classes=["sender-crash", "receiver-restart", "xfault-1", "xfault-3", "xfault-4"])],
+     SIM_ASSUME + ["'eventually' is decided only as 'within the stated bound of simulated time after the last perturbation'"])
+
+prop("C08", "fault_enumeration",
+     "W1: 1-5 files giving several payloads of several parts, 1-4 threads; every data request is served with a drawn fault kind at a drawn part index and "
+     "byte position (refuse, lost answer after full processing, partial content at part k, connection cut inside part k, byte flip), recovery requests may "
+     "be refused repeatedly; oracle over the wire history: Sent() is logged only when the acknowledged ranges of that version cover the file; no "
+     "acknowledged part is transmitted again unless a failed/none verdict or a flip intervened; nothing is abandoned (delivered after the failures stop); "
+     "non-trivial = a partial/cut/lost-answer failure on a multi-part file",
+     [dict(pkg="stagex", test="TestC08Sim", world="W1", quick=1200, thorough=40000, per_proc=60, shrink_runs=150,
+           required_classes=["xfault-2", "xfault-3", "xfault-4", "multi-part-file"])],
+     SIM_ASSUME + ["failure positions are drawn, not exhaustively enumerated per scenario; the X-STS-PartCount header handling itself is in the wire checks"])
+
 # ---------------------------------------------------------------------------
 # texts for MANIFEST.json (tools/mkmanifest.py)
 
@@ -257,5 +300,23 @@ MANIFEST_TEXT["C17"] = dict(
     text="Decides the 'queued if and only if eligible' clause for a single scan of a generated tree. The history clauses (changed files sent again, "
          "unchanged ones not, one complete version) are not decided by this unit.",
     note="Real temp directories, real store.Local.Scan with the same allow callback shape as the sender (size > 0).")
+
+SIM_NOTE = ("Real sender and receiver components wired together by the harness inside one testing/synctest bubble per process; the transport is the "
+            "harness's rendering of the four HTTP handlers. Known findings (poll by name only; two versions in flight) are set aside by key.")
+MANIFEST_TEXT["C02"] = dict(
+    technique="property-based testing with fault injection and restarts in a deterministic simulation (rapid + testing/synctest): invariant at every release of a source file",
+    text="Generated histories of faults, restarts and source mutations; at each done-marking and deletion the receiver must durably hold a validated "
+         "copy of exactly the content the source file has at that instant.",
+    note=SIM_NOTE)
+MANIFEST_TEXT["C03"] = dict(
+    technique="property-based testing with fault injection in a deterministic simulation: bounded-liveness oracle after a failure-free suffix",
+    text="After any generated finite prefix of faults, restarts and mutations, a failure-free period of bounded simulated time must end with every "
+         "file delivered, confirmed and marked done.",
+    note=SIM_NOTE + " Liveness only in the bounded reading.")
+MANIFEST_TEXT["C08"] = dict(
+    technique="fault injection at drawn positions of drawn kinds in a deterministic simulation; invariant over the wire history",
+    text="Every data request may fail at a drawn part index in one of five ways; the wire history must show that only acknowledged parts count as sent, "
+         "only the remainder is sent again, nothing is abandoned, and Sent() is logged only for fully acknowledged versions.",
+    note=SIM_NOTE)
 
 NOT_CLAIMED = {}
